@@ -193,6 +193,10 @@ POS["union_operand_other_cls"] = lambda Q, v: Q.from_(_t()).select("a").union(_o
 POS["json_text_key"] = lambda Q, v: Q.from_(_t()).select("a").where(_t().j.get_text_value(v) == "x")
 POS["json_has_keys"] = lambda Q, v: Q.from_(_t()).select("a").where(_t().j.has_keys([v]))
 POS["json_has_any_keys"] = lambda Q, v: Q.from_(_t()).select("a").where(_t().j.has_any_keys([v]))
+# statements started by the table's own methods (the table was handed out by the dialect's query class)
+POS["table_api_insert"] = lambda Q, v: Q.Table("t").insert(0, v)
+POS["table_api_update"] = lambda Q, v: Q.Table("t").update().set("a", v)
+POS["table_api_select"] = lambda Q, v: Q.Table("t").select(W(v))
 POS["m_from_to"] = lambda Q, v: Q.from_(_t()).select("a").where(_t().a.from_to(v, 0))
 POS["between_upper"] = lambda Q, v: Q.from_(_t()).select("a").where(_t().a.between(0, v))
 # containers of other Python types
